@@ -93,6 +93,53 @@ func buildConcOps(st *trie.SlimTrie, qs []string, complete bool, i32 bool, nStri
 			})
 		}
 	}
+	if !complete && len(qs) > 0 {
+		// on a trie that does not store complete keys every scan entry point
+		// refuses (panics); the caller recovers and goes on reading - a refusal
+		// is a read like any other and leaves the shared instance as it was
+		for t := 0; t < 3; t++ {
+			q := qs[(t*31+5)%len(qs)]
+			add("ScanFrom", func() string {
+				n := 0
+				st.ScanFrom(q, true, true, func(k, v []byte) bool { n++; return n < 5 })
+				return "yielded " + strconv.Itoa(n)
+			})
+			add("NewIter", func() string {
+				nxt := st.NewIter(q, true, false)
+				k, _ := nxt()
+				return "first " + hex.EncodeToString(k)
+			})
+			add("ScanFromTo", func() string {
+				n := 0
+				st.ScanFromTo("", true, q, true, false, func(k, v []byte) bool { n++; return n < 5 })
+				return "yielded " + strconv.Itoa(n)
+			})
+		}
+	}
+	if complete && len(qs) > 0 {
+		// a callback that gives up by panicking (recovered by the caller)
+		for t := 0; t < 3; t++ {
+			q := qs[(t*17+3)%len(qs)]
+			add("ScanFrom", func() (res string) {
+				var b bytes.Buffer
+				n := 0
+				defer func() {
+					if p := recover(); p != nil {
+						res = b.String() + "callback-panicked"
+					}
+				}()
+				st.ScanFrom(q, true, true, func(k, v []byte) bool {
+					qkv(&b, k, v)
+					n++
+					if n == 3 {
+						panic("callback gives up")
+					}
+					return true
+				})
+				return b.String()
+			})
+		}
+	}
 	if complete {
 		for t := 0; t < 4; t++ {
 			withVal := t%2 == 0
